@@ -382,6 +382,19 @@ class Sym:
             raise TypeError(f"cannot lift {type(x)} to Sym")
         return Sym(p)
 
+    def _arr(self, o, f):
+        """elementwise operation with a numpy array / list operand"""
+        if not _is_arraylike(o):
+            return NotImplemented
+        import numpy as _np
+        from .shim import SymArray
+        a = _np.asarray(o, dtype=object)
+        out = _np.empty(a.shape, dtype=object)
+        of, af = out.reshape(-1), a.reshape(-1)
+        for i in range(len(af)):
+            of[i] = f(af[i])
+        return out.view(SymArray)
+
     def _co(self, o):
         if isinstance(o, Sym):
             return o.p
@@ -393,20 +406,20 @@ class Sym:
     def __add__(self, o):
         q = self._co(o)
         if q is None:
-            return NotImplemented
+            return self._arr(o, lambda x: self + x)
         return Sym(self.p.add(q))
     __radd__ = __add__
 
     def __sub__(self, o):
         q = self._co(o)
         if q is None:
-            return NotImplemented
+            return self._arr(o, lambda x: self - x)
         return Sym(self.p.sub(q))
 
     def __rsub__(self, o):
         q = self._co(o)
         if q is None:
-            return NotImplemented
+            return self._arr(o, lambda x: x - self)
         return Sym(q.sub(self.p))
 
     def __neg__(self):
@@ -418,20 +431,20 @@ class Sym:
     def __mul__(self, o):
         q = self._co(o)
         if q is None:
-            return NotImplemented
+            return self._arr(o, lambda x: self * x)
         return Sym(self.p.mul(q))
     __rmul__ = __mul__
 
     def __truediv__(self, o):
         q = self._co(o)
         if q is None:
-            return NotImplemented
+            return self._arr(o, lambda x: self / x)
         return Sym(self.p.mul(poly_inverse(q)))
 
     def __rtruediv__(self, o):
         q = self._co(o)
         if q is None:
-            return NotImplemented
+            return self._arr(o, lambda x: x / self)
         return Sym(q.mul(poly_inverse(self.p)))
 
     def __pow__(self, e):
